@@ -72,7 +72,8 @@ UtilDocs(U) ==
         r \in { m("u2"), [op |-> "not", sub |-> m("u1")],
                 [op |-> "has", sub |-> m("u1"), stop |-> EndStop, field |-> ""],
                 [op |-> "all", subs |-> <<m("u1"), m("u2")>>] },
-        ut \in { [u1 |-> a, u2 |-> [op |-> "any", subs |-> <<m("u1"), b>>]] : a \in k1 \cup p1, b \in k1 \cup p1 } }
+        \* u1 may be a rule without potential kinds (a regex): references to it must not narrow any kind set
+        ut \in { [u1 |-> a, u2 |-> [op |-> "any", subs |-> <<m("u1"), b>>]] : a \in k1 \cup p1 \cup RegexAtoms(U), b \in k1 \cup p1 } }
 
 \* documents that refer to a global utility rule with a constraint (the rule `sub` of the utility is one of the
 \* universe's patterns, the constraint restricts one of its variables); the reference stands where a losing
